@@ -150,7 +150,11 @@ def gen_mask(rng, size, circle):
     return circle(size / 3.0, size, (dyadic(rng, -size / 4, size / 4, 2), dyadic(rng, -size / 4, size / 4, 2)))
 
 
-def check_selection(ctx, wfs, circle, rng, n):
+# (mask size, count) pairs at which k * size / count sits on a rounding tie for some k (cell edges computed in two ways differ there)
+TIE_PAIRS = [(25, 12), (25, 14), (21, 20), (22, 20), (26, 24), (23, 22), (33, 18), (27, 18), (30, 12), (35, 14), (45, 18), (50, 20), (21, 14), (15, 10), (9, 6), (25, 10)]
+
+
+def check_selection(ctx, wfs, circle, rng, n, shard=0):
     for it in range(n):
         subaps = int(rng.integers(1, 9))
         exact = rng.random() < 0.75
@@ -158,6 +162,9 @@ def check_selection(ctx, wfs, circle, rng, n):
         if not exact and rng.random() < 0.5:
             subaps = int(rng.integers(9, 25))          # many cells on a mask that is not a multiple of the count
         size = subaps * cell if exact else int(rng.integers(subaps, (6 if subaps < 9 else 2) * subaps + 1))
+        if it < 2:                                      # always present, spread over the shards
+            exact = False
+            size, subaps = TIE_PAIRS[(2 * shard + it) % len(TIE_PAIRS)]
         mask = gen_mask(rng, size, circle)
         wit = {"subaps": subaps, "size": size, "mask_sum": float(mask.sum())}
         tcls = int(rng.integers(0, 6))
@@ -198,7 +205,7 @@ def check_selection(ctx, wfs, circle, rng, n):
             ctx.check(bool(np.all(np.asarray(fills) >= thr)), "findActiveSubaps:fill_below_threshold", "an active cell has fill < threshold", wit)
             # the cells are a grid: they tile the mask, so a single lit pixel belongs to exactly one cell (whatever the
             # size / count ratio and however the cell edges are rounded), and that cell contains the pixel
-            for _ in range(6):
+            for _ in range(6 if it >= 2 else 40):
                 if rng.random() < 0.6:      # pixels next to an ideal cell edge
                     py = int(np.clip(round(int(rng.integers(1, subaps + 1)) * sp) + int(rng.integers(-1, 1)), 0, size - 1))
                     px = int(np.clip(round(int(rng.integers(1, subaps + 1)) * sp) + int(rng.integers(-1, 1)), 0, size - 1))
@@ -251,4 +258,4 @@ def run(ctx, spec):
     sizes = [n for n in range(1, 41) if n % spec["n_shards"] == spec["shard"]]
     for n in sizes:
         check_circles(ctx, aotools.circle, n, rng, spec["reps"])
-    check_selection(ctx, aotools.wfs.wfslib, aotools.circle, rng, spec["nsel"])
+    check_selection(ctx, aotools.wfs.wfslib, aotools.circle, rng, spec["nsel"], spec["shard"])
